@@ -105,16 +105,16 @@ fn c07_set_value_step_8() {
     let r = bus.set_value(v);
     match r {
         Ok(()) => {
-            assert!(p.value.get() == v as u16, "C07: data pins do not show the value written");
-            assert!(bus.last == Some(v), "C07: cache not updated");
-            assert!(p.clock.ops.get() <= k, "C12: failing pin write swallowed");
+            kani::assert(p.value.get() == v as u16, "C07: data pins do not show the value written");
+            kani::assert(bus.last == Some(v), "C07: cache not updated");
+            kani::assert(p.clock.ops.get() <= k, "C12: failing pin write swallowed");
         }
         Err(_) => {
-            assert!(bus.last.is_none(), "C07: cache claims a value after a failed pin write");
-            assert!(p.clock.ops.get() == k + 1, "C12: pin written after the failing one");
+            kani::assert(bus.last.is_none(), "C07: cache claims a value after a failed pin write");
+            kani::assert(p.clock.ops.get() == k + 1, "C12: pin written after the failing one");
         }
     }
-    if let Some(l) = bus.last { assert!(p.value.get() == l as u16, "C07: cache invariant broken"); }
+    if let Some(l) = bus.last { kani::assert(p.value.get() == l as u16, "C07: cache invariant broken"); }
     kani::cover!(r.is_err());
     kani::cover!(r.is_ok() && p.data_writes.get() == 0);
 }
@@ -130,22 +130,22 @@ fn c07_set_value_step_16() {
     let r = bus.set_value(v);
     match r {
         Ok(()) => {
-            assert!(p.value.get() == v, "C07: data pins do not show the value written");
-            assert!(bus.last == Some(v), "C07: cache not updated");
+            kani::assert(p.value.get() == v, "C07: data pins do not show the value written");
+            kani::assert(bus.last == Some(v), "C07: cache not updated");
         }
         Err(_) => {
-            assert!(bus.last.is_none(), "C07: cache claims a value after a failed pin write");
-            assert!(p.clock.ops.get() == k + 1, "C12: pin written after the failing one");
+            kani::assert(bus.last.is_none(), "C07: cache claims a value after a failed pin write");
+            kani::assert(p.clock.ops.get() == k + 1, "C12: pin written after the failing one");
         }
     }
-    if let Some(l) = bus.last { assert!(p.value.get() == l, "C07: cache invariant broken"); }
+    if let Some(l) = bus.last { kani::assert(p.value.get() == l, "C07: cache invariant broken"); }
     kani::cover!(r.is_err());
 }
 /// base case: a new bus claims nothing
 #[kani::proof]
 fn c07_new_bus_has_no_cache() {
     let p = Port::new(kani::any());
-    assert!(bus8(&p).last.is_none() && bus16(&p).last.is_none(), "C07: new bus must not assume pin levels");
+    kani::assert(bus8(&p).last.is_none() && bus16(&p).last.is_none(), "C07: new bus must not assume pin levels");
 }
 
 /// unit interleaving: WR low, bus settles to `word`, WR high - the value at the rising edge is `word`, from any state
@@ -163,19 +163,19 @@ fn c07_send_word_latches_word() {
     let r = pi.send_word(w);
     match r {
         Ok(()) => {
-            assert!(p.n_latched.get() == 1 && p.latched.get()[0] == w as u16, "C07: value at the rising WR edge is not the word sent");
-            assert!(p.wr.get(), "C07: WR left low");
+            kani::assert(p.n_latched.get() == 1 && p.latched.get()[0] == w as u16, "C07: value at the rising WR edge is not the word sent");
+            kani::assert(p.wr.get(), "C07: WR left low");
             assert!(p.clock.ops.get() <= k);
         }
         Err(e) => {
             let n = p.clock.ops.get();
-            assert!(n == k + 1, "C12: operation issued after the failing one");
+            kani::assert(n == k + 1, "C12: operation issued after the failing one");
             match e {
-                ParallelError::Wr(_) => assert!(k == 0 || k == n - 1, "C12: Wr error not from the write strobe"),
-                ParallelError::Bus(_) => assert!(k >= 1, "C12: Bus error not from a data pin"),
-                ParallelError::Dc(_) => assert!(false, "C12: Dc error from send_word"),
+                ParallelError::Wr(_) => kani::assert(k == 0 || k == n - 1, "C12: Wr error not from the write strobe"),
+                ParallelError::Bus(_) => kani::assert(k >= 1, "C12: Bus error not from a data pin"),
+                ParallelError::Dc(_) => kani::assert(false, "C12: Dc error from send_word"),
             }
-            assert!(p.n_latched.get() == 0, "C07: a word was latched although the call failed before the rising edge");
+            kani::assert(p.n_latched.get() == 0, "C07: a word was latched although the call failed before the rising edge");
         }
     }
     kani::cover!(r.is_ok());
@@ -196,13 +196,13 @@ fn c07_send_command_bounded() {
     let n: usize = kani::any();
     kani::assume(n <= 3);
     assert!(pi.send_command(cmd, &args[..n]).is_ok());
-    assert!(p.n_latched.get() == n + 1, "C07: number of write strobes");
+    kani::assert(p.n_latched.get() == n + 1, "C07: number of write strobes");
     let l = p.latched.get();
     let d = p.latched_dc.get();
-    assert!(l[0] == cmd as u16 && !d[0], "C07: instruction latched with DC low");
+    kani::assert(l[0] == cmd as u16 && !d[0], "C07: instruction latched with DC low");
     let i: usize = kani::any();
     kani::assume(i < n);
-    assert!(l[i + 1] == args[i] as u16 && d[i + 1], "C07: parameter latched with DC high, in order");
+    kani::assert(l[i + 1] == args[i] as u16 && d[i + 1], "C07: parameter latched with DC high, in order");
     assert!(p.dc.get() && p.wr.get());
 }
 
@@ -218,10 +218,9 @@ fn c07_send_pixels_bounded() {
     let px: [[u8; 2]; 2] = kani::any();
     assert!(pi.send_pixels(px).is_ok());
     let l = p.latched.get();
-    assert!(p.n_latched.get() == 4 && l[0] == px[0][0] as u16 && l[1] == px[0][1] as u16 && l[2] == px[1][0] as u16 && l[3] == px[1][1] as u16,
-            "C07: pixel words latched in order");
+    kani::assert(p.n_latched.get() == 4 && l[0] == px[0][0] as u16 && l[1] == px[0][1] as u16 && l[2] == px[1][0] as u16 && l[3] == px[1][1] as u16, "C07: pixel words latched in order");
     let d = p.latched_dc.get();
-    assert!(d[0] && d[1] && d[2] && d[3], "C07: DC high for pixel data");
+    kani::assert(d[0] && d[1] && d[2] && d[3], "C07: DC high for pixel data");
 }
 
 /// repeated pixel, count <= 2, N = 2 (all-same words take the strobe-only path): count*N latches of the right words
@@ -237,11 +236,11 @@ fn c07_send_repeated_pixel_bounded() {
     let count: u32 = kani::any();
     kani::assume(count <= 2);
     assert!(pi.send_repeated_pixel(px, count).is_ok());
-    assert!(p.n_latched.get() == 2 * count as usize, "C07: number of words for a repeated pixel");
+    kani::assert(p.n_latched.get() == 2 * count as usize, "C07: number of words for a repeated pixel");
     let l = p.latched.get();
     let i: usize = kani::any();
     kani::assume(i < 2 * count as usize);
-    assert!(l[i] == px[i % 2] as u16, "C07: repeated pixel words");
+    kani::assert(l[i] == px[i % 2] as u16, "C07: repeated pixel words");
     kani::cover!(px[0] == px[1] && count == 2);
     kani::cover!(px[0] != px[1] && count == 2);
 }
@@ -270,5 +269,5 @@ fn c07_repeat_count_no_overflow() {
     // fail the 3rd low-level operation (first bare strobe) so that the call returns right after the product is computed
     p.clock.fail_at.set(10);
     let r = pi.send_repeated_pixel([0x55u8, 0x55u8], 0x8000_0000);
-    assert!(r.is_err(), "C07: expected the injected strobe failure");
+    kani::assert(r.is_err(), "C07: expected the injected strobe failure");
 }
